@@ -2,7 +2,8 @@
 
 Decided (DESIGN.md C45), on type-checked HIR, nothing executes:
  K4-template   every result of every `IdProvider::unix_user_authorise` implementation is `Ok(Some(B))` (or Ok(None) / Err) where
-               B is the literal `false`, or a conjunction (`&&` only — an `||` is a violation) that contains
+               B is the literal `false`, or a value whose top-level conjuncts (`&&`; the operands of an `||` do not count, so
+               `||` instead of `&&` is a violation) together with the guards dominating the return site contain
                  * the membership atom   |user_set ∩ pam_allow_groups| > 0   (forms: n > 0, n != 0, n >= 1, 0 < n) with
                    n = BTreeSet::intersection(..).count() over a set built from the token's groups by *name and uuid*, and
                  * the validity atom     <token parameter>.valid   (not negated).
@@ -64,12 +65,18 @@ def int_lit(e):
     return None
 
 
-def membership_atom(e, binds, prov):
-    """(ok, why) for a conjunct `count > 0` with count = A.intersection(B).count()."""
+NEG_OP = {"==": "!=", "!=": "==", "<": ">=", ">=": "<", ">": "<=", "<=": ">"}
+
+
+def membership_atom(e, binds, prov, pol=True):
+    """(ok, why) for a literal `count > 0` (or the negation of `count == 0` when pol is False)
+    with count = A.intersection(B).count()."""
     e = unwrap(e)
-    if e.get("e") != "bin":
+    if e.get("e") != "bin" or e.get("op") not in NEG_OP:
         return None
     op, l, r = e["op"], e["l"], e["r"]
+    if not pol:
+        op = NEG_OP[op]
     forms = [(">", 0), ("!=", 0), (">=", 1)]
     rev = {"<": ">", "<=": ">=", "!=": "!=", ">": "<", ">=": "<="}
     cnt = None
@@ -168,40 +175,52 @@ def run(ctx):
                 continue
             n_templates += 1
             f = pc.cond(b)
-            # substitute pre-computed conjunct locals
-            conj = []
+            # literals that hold whenever this value is returned as `true`:
+            # the top-level conjuncts of B (pre-computed locals substituted) and the path condition of the site
+            cand = []
             for g in flatten_and(f):
                 if g[0] == "leaf" and g[1] == "expr":
                     e2 = subst(g[2], binds)
                     g2 = pc.cond(e2) if e2 is not unwrap(g[2]) and unwrap(e2).get("e") in ("bin", "un") and unwrap(e2).get("op") in ("&&", "||", "Not") else g
-                    conj += flatten_and(g2)
+                    for h in flatten_and(g2):
+                        cand.append(h)
                 else:
-                    conj.append(g)
-            ors = has_or(f) or any(has_or(g) for g in conj)
+                    cand.append(g)
+            literals = []
+            for g in cand:
+                if g[0] == "leaf":
+                    literals.append((True, g))
+                elif g[0] == "not" and g[1][0] == "leaf":
+                    literals.append((False, g[1]))
+            for (p, leaf) in lits.values():
+                literals.append((p, leaf))
+            ors = has_or(f) or any(has_or(g) for g in cand)
             mem = None
             val = False
-            for g in conj:
-                if g[0] == "leaf" and g[1] == "expr":
-                    m = membership_atom(g[2], binds, prov)
-                    if m is not None and (mem is None or m[0]):
-                        mem = m
-                    if validity_atom(g[2], token_locals):
-                        val = True
+            for (p, g) in literals:
+                if g[1] != "expr":
+                    continue
+                m = membership_atom(g[2], binds, prov, p)
+                if m is not None and (mem is None or m[0]):
+                    mem = m
+                if p and validity_atom(g[2], token_locals):
+                    val = True
             problems = []
-            if ors:
-                problems.append("contains `||` (a disjunction admits users that fail one of the tests)")
             if mem is None:
-                problems.append("no membership atom `intersection(..).count() > 0` among the top-level conjuncts")
+                problems.append("no membership test `intersection(..).count() > 0` among the conjuncts / dominating guards")
             elif not mem[0]:
-                problems.append("membership atom: " + mem[1])
+                problems.append("membership test: " + mem[1])
             if not val:
-                problems.append("no un-negated `<token>.valid` among the top-level conjuncts")
+                problems.append("no un-negated `<token>.valid` among the conjuncts / dominating guards")
+            if ors and problems:
+                problems.append("the returned expression contains `||` (a disjunction admits users that fail one of the tests)")
             tmpl = ex_s(b)
             ctx.check(not problems, "K4-template", name, "result:Some(membership∧valid)" if not problems else
                       "result:Some(" + ("or" if ors else "and") + (":no-membership" if mem is None or not mem[0] else "") + (":no-valid" if not val else "") + ")",
                       f"template {tmpl}: conjunction with membership(names ∪ uuids) and token.valid",
-                      f"unix_user_authorise returns Some({tmpl}); required: a pure conjunction containing (groups by name ∪ uuid ∩ pam_allow_groups).count() > 0 "
-                      f"and token.valid. Problems: {problems} — a user outside every allowed group, or with an invalid/expired account record, would be admitted",
+                      f"unix_user_authorise returns Some({tmpl}); required: whenever the value can be true, both (groups by name ∪ uuid ∩ pam_allow_groups).count() > 0 "
+                      f"and token.valid hold (as conjuncts of the value or as dominating guards). Problems: {problems} — a user outside every allowed group, "
+                      "or with an invalid/expired account record, would be admitted",
                       **loc(rec, node))
             ctx.sample(f"{rec['file']}:{node.get('line')} unix_user_authorise :: Some({tmpl})")
         if name == kan["fn"]:
